@@ -5,7 +5,7 @@ import enf_corr as ec
 TRANSLATORS = []
 LEVEL = "proof"
 ASSUMPTIONS = [
-    "auto_build_role_links stays on (the property's setting); grouping rules have exactly as many fields as the role definition has underscores",
+    "auto_build_role_links is on whenever a management call changes the policy (windows with the flag off contain only reloads of the mirrored store); grouping rules have exactly as many fields as the role definition has underscores",
     "role managers are represented by their link store; Props/C03 proves the managers' answers are a function of it",
     "oracle on the implementation: after every call every decision / has_link / get_roles / get_users over the universe is compared with a freshly constructed Enforcer loaded with the current policy",
 ]
@@ -53,10 +53,24 @@ def gen(ctx, deep):
             for a in ops:
                 for b in ops:
                     jobs.append((cfg, [a, b]))
+        # a window with auto_build_role_links off in which nothing but a reload (of the mirrored store) happens, then
+        # incremental maintenance again; and a swap of the role manager followed by a rebuild
+        window = [("autobuild", False), ("load", None), ("autobuild", True)]
+        for init in inits[1:]:
+            cfg = ec.Config(shape, adapter=True, watcher=None, initial=init)
+            for b in ops:
+                jobs.append((cfg, window + [b]))
+                jobs.append((cfg, [("setrm",), b]))
+            for a in rng.sample(ops, 12):
+                for b in rng.sample(ops, 12):
+                    if a[0] != "clear":  # clear_policy leaves the store behind: the reload would not be of a mirrored store
+                        jobs.append((cfg, [a] + window + [b]))
+                    jobs.append((cfg, [a, ("setrm",), b]))
         n = 1500 if not deep else 8000
+        ops_r = ops + [("setrm",)]
         for _ in range(n):
             cfg = ec.Config(shape, adapter=True, watcher=None, initial=rng.choice(inits))
-            jobs.append((cfg, [rng.choice(ops) for _ in range(rng.randint(3, 9))]))
+            jobs.append((cfg, [rng.choice(ops_r) for _ in range(rng.randint(3, 9))]))
     return jobs
 
 
